@@ -1,0 +1,45 @@
+//go:build verif
+
+package client
+
+// Contracts for the client adapter, checked by /verif/govc (contract-based deductive
+// verification). Comments only; compiled only under the build tag "verif".
+
+// ---- C11: lock discipline ---------------------------------------------------------------------
+// Every access to the fields below requires fd.mu to be held; functions that receive a *Client are
+// entered with the mutex free and leave it free (getTable is called with it held).
+//@ guarded Client.mu: tables, forceFailureErr, itemCollectionMetrics, useNativeInterpreter, nativeInterpreter, langInterpreter
+
+//@ func (*Client).getTable
+//@   lockheld
+
+// ---- C15: emulated failures ---------------------------------------------------------------------
+// While a failure is configured, every data method returns exactly that error and changes nothing.
+
+//@ func (*Client).PutItem
+//@   partial
+//@   ensures[C15] old(fd.forceFailureErr) != nil ==> result1 == old(fd.forceFailureErr) && unchangedAll()
+//@ func (*Client).DeleteItem
+//@   partial
+//@   ensures[C15] old(fd.forceFailureErr) != nil ==> result1 == old(fd.forceFailureErr) && unchangedAll()
+//@ func (*Client).UpdateItem
+//@   partial
+//@   ensures[C15] old(fd.forceFailureErr) != nil ==> result1 == old(fd.forceFailureErr) && unchangedAll()
+//@ func (*Client).GetItem
+//@   partial
+//@   ensures[C15] old(fd.forceFailureErr) != nil ==> result1 == old(fd.forceFailureErr) && unchangedAll()
+//@ func (*Client).Query
+//@   partial
+//@   ensures[C15] old(fd.forceFailureErr) != nil ==> result1 == old(fd.forceFailureErr) && unchangedAll()
+//@ func (*Client).Scan
+//@   partial
+//@   ensures[C15] old(fd.forceFailureErr) != nil ==> result1 == old(fd.forceFailureErr) && unchangedAll()
+//@ func (*Client).TransactWriteItems
+//@   partial
+//@   ensures[C15] old(fd.forceFailureErr) != nil ==> result1 == old(fd.forceFailureErr) && unchangedAll()
+//@ func (*Client).failureErr
+//@   inline
+//@   ensures[C15] result == old(fd.forceFailureErr) && unchangedAll()
+//@ func (*Client).setFailureCondition
+//@   modifies fd.forceFailureErr, fd.mu
+//@   ensures[C15] fd.forceFailureErr == old(emulatingErrors[condition])
